@@ -769,9 +769,11 @@ func (e *Executor) Pending(ctx context.Context) ([]File, error) {
 		}); first != -1 && first < idx && e.order != ExecOrderLinearSkip {
 			var skipped []File
 			for _, f := range migrations[first:idx] {
-				if _, found := slices.BinarySearchFunc(revs, f, func(r *Revision, f File) int {
+				// A file is out of order if it was never applied, or if it was only partially applied
+				// (a failed out-of-order file of a previous non-linear run): it must be resumed as well.
+				if i, found := slices.BinarySearchFunc(revs, f, func(r *Revision, f File) int {
 					return strings.Compare(r.Version, f.Version())
-				}); !found {
+				}); !found || revs[i].Applied != revs[i].Total {
 					skipped = append(skipped, f)
 				}
 			}
